@@ -823,6 +823,10 @@ impl Matcher for MouseEventMatcher {
         }
 
         let button = event & 3;
+        // buttons 8..11 (bit 7) and the horizontal wheel (66, 67) have no name
+        if event & 128 != 0 || (event & 64 != 0 && button > 1) {
+            return None;
+        }
         let name = if event & 64 != 0 {
             if button == 0 {
                 KeyName::MouseWheelDown
@@ -2076,6 +2080,31 @@ pub mod verif {
         }
     }
 
+    /// NFA of a production automaton as it is right before `compile()`: the same expression
+    /// `MatcherAutomata::new` builds from the registered matchers
+    fn matchers_nfa<T: Clone + Ord>(
+        matchers: &[Box<dyn Matcher<Item = T>>],
+    ) -> NFA<MatcherTag<T>> {
+        NFA::choice(matchers.iter().enumerate().map(|(index, matcher)| {
+            match matcher.matcher() {
+                Either::Left(automata) => automata
+                    .tags_map(|_| MatcherTag::Matcher(index))
+                    .tag_stop_state(MatcherTag::Matcher(index)),
+                Either::Right(automata) => automata.tags_map(MatcherTag::Item),
+            }
+        }))
+    }
+
+    /// Debug (DOT) text of the NFA of a production automaton: "event", "command" or "utf8"
+    pub fn dump_nfa(which: &str) -> Option<String> {
+        match which {
+            "event" => Some(format!("{:?}", matchers_nfa(&TTY_EVENT_AUTOMATA.matchers))),
+            "command" => Some(format!("{:?}", matchers_nfa(&TTY_COMMAND_AUTOMATA.matchers))),
+            "utf8" => Some(format!("{:?}", utf8_nfa::<()>(UTF8Mode::Canonical))),
+            _ => None,
+        }
+    }
+
     /// Debug names of matchers registered in production automata, in index order
     pub fn matcher_names(which: &str) -> Vec<String> {
         match which {
@@ -2115,6 +2144,8 @@ pub mod verif {
         nfa: NFA<()>,
         /// register as item tag (decoder is not called) instead of matcher index
         as_item: bool,
+        /// decoder rejects (returns `None` for) matches of odd length
+        reject_odd: bool,
     }
 
     impl Matcher for PatternMatcher {
@@ -2134,6 +2165,9 @@ pub mod verif {
         }
 
         fn decode(&self, data: &[u8]) -> Option<Self::Item> {
+            if self.reject_odd && data.len() % 2 == 1 {
+                return None;
+            }
             Some((self.index, data.to_vec()))
         }
     }
@@ -2150,12 +2184,23 @@ pub mod verif {
     impl Tokenizer {
         /// Patterns must not contain tags, second component selects item registration
         pub fn new(patterns: impl IntoIterator<Item = (NFA<()>, bool)>) -> Self {
+            Self::with_rejects(
+                patterns
+                    .into_iter()
+                    .map(|(nfa, as_item)| (nfa, as_item, false)),
+            )
+        }
+
+        /// Same as [Tokenizer::new], third component makes the decoder of the pattern reject
+        /// (return `None` for) matches of odd length, such matches surface as unrecognized bytes
+        pub fn with_rejects(patterns: impl IntoIterator<Item = (NFA<()>, bool, bool)>) -> Self {
             let automata = MatcherAutomata::new(patterns.into_iter().enumerate().map(
-                |(index, (nfa, as_item))| {
+                |(index, (nfa, as_item, reject_odd))| {
                     Box::new(PatternMatcher {
                         index,
                         nfa,
                         as_item,
+                        reject_odd,
                     }) as Box<dyn Matcher<Item = (usize, Vec<u8>)>>
                 },
             ));
